@@ -754,6 +754,7 @@ pub fn exec(case: &PCase, sample_closed: bool) -> Trace {
         }
       }
       Step::Advance(n) => vtime::advance(ticks(*n), prompt),
+      Step::AdvanceNoRun(n) => vtime::advance(ticks(*n), false),
       Step::FireNext => {
         vtime::fire_next_timer();
         if prompt {
@@ -799,7 +800,7 @@ pub fn exec(case: &PCase, sample_closed: bool) -> Trace {
   tr.live_tasks_end = vtime::live_tasks();
   tr.pending_timers_end = vtime::pending_timers();
   tr.status_flags = lock!(env.statuses).iter().map(|s| (s.is_completed(), s.error_occur())).collect();
-  tr.requested = vtime::requested().iter().map(|d| d.as_millis() as u64).collect();
+  tr.requested = vtime::requested().iter().map(|d| as_ticks(*d)).collect();
   std::mem::forget(guard); // a guard never dropped by the script must not unsubscribe behind our back
   drop(sub);
   tr
@@ -931,6 +932,8 @@ pub struct SrcTrace {
   pub stats: PollStats,
   /// durations (ms) asked from the timer function while this source was being subscribed
   pub requested_at_subscribe: Vec<u64>,
+  /// virtual time after each script step, and after the final run
+  pub step_times: Vec<u64>,
 }
 
 pub fn build_tsrc(t: &TSrc, stats: &Sh<PollStats>) -> Bx {
@@ -968,13 +971,14 @@ pub fn exec_sources(srcs: &[TSrc], script: &[Step], mode: SchedMode) -> Vec<SrcT
     let p = build_tsrc(t, &stats);
     let probe = Probe::new();
     subs.push(p.actual_subscribe(probe.clone()));
-    let req: Vec<u64> = vtime::requested()[before..].iter().map(|d| d.as_millis() as u64).collect();
+    let req: Vec<u64> = vtime::requested()[before..].iter().map(|d| as_ticks(*d)).collect();
     probes.push((probe, stats, req));
   }
   let prompt = mode == SchedMode::Fifo;
   if prompt {
     vtime::run_until_stalled();
   }
+  let mut step_times = vec![];
   for (k, st) in script.iter().enumerate() {
     crate::stamp::set(k);
     match st {
@@ -994,11 +998,16 @@ pub fn exec_sources(srcs: &[TSrc], script: &[Step], mode: SchedMode) -> Vec<SrcT
       }
       _ => {}
     }
+    step_times.push(as_ticks(vtime::now()));
   }
   crate::stamp::set(script.len());
   // final executor run (no further clock movement: periodic sources never end)
   vtime::run_until_stalled();
-  let out = probes.into_iter().map(|(p, s, req)| SrcTrace { recs: p.recs(), stats: lock!(s).clone(), requested_at_subscribe: req }).collect();
+  step_times.push(as_ticks(vtime::now()));
+  let out = probes
+    .into_iter()
+    .map(|(p, s, req)| SrcTrace { recs: p.recs(), stats: lock!(s).clone(), requested_at_subscribe: req, step_times: step_times.clone() })
+    .collect();
   drop(subs);
   out
 }
